@@ -180,7 +180,7 @@ impl Ctx {
             "C05" => (3, 2),
             "C18" => (1, 1),
             "C19" => (3, 2),
-            "C13" | "C16" => (8, 2),
+            "C13" | "C16" => (8, 12),
             "C15" => (1, 1),
             _ => (6, 3),
         };
